@@ -1,5 +1,6 @@
 import Pcore.Proofs.ObjectDefine
 import Pcore.Proofs.ObjectSchema
+import Pcore.Proofs.ObjectInitHash
 import Pcore.Generated.ObjectSchema
 import Mathlib.Data.List.Perm.Subperm
 /-!
@@ -53,8 +54,16 @@ Full statement / proved / missing
                          `C17_schema_partial`: the definition proper.  Missing: the text parser (C05) and the general
                          instance relation of Pattern/Variant/Hash types (C02) — `sinst` implements them on the value shapes
                          an object definition holds only.
-* missing altogether: `override => true`, functions, type parameters, annotations, Go-reflected objects
-  (`reflectedObject`).
+* `C17_type_inithash`  — FULL statement kept as a `def … : Prop`: every accepted definition re-created from the InitHash of the
+                         type it defined (`typeDef`: attribute.initHash / objectType.initHash) is accepted again and is the
+                         same type up to the order of the own attributes (`constants` last).  Proved part
+                         `C17_type_inithash_partial`: … when no own attribute is a constant of an Optional type with the value
+                         undef; `C17_type_inithash_same`: the re-created type has the same layout (`attrInfo`), member
+                         lookup, `Get` and init-hashes.  The full statement is FALSE of model and code (known finding
+                         C17-type-inithash-constant-undef): `C17_type_inithash_constant_undef` is the negation, replayed
+                         on the implementation by the harness (class `reinit-constant-undef`).
+* missing altogether: functions, type parameters, annotations (implementation-only streams `@objd`, `@tparam`, `@iface`),
+  Go-reflected objects (`reflectedObject`).
 -/
 namespace Pcore.Object
 
@@ -616,6 +625,66 @@ theorem C17_subtype_strict {p t : OType} (h : p <:+ t) (hne : p ≠ t) (o : Obj)
     have hle := h.length_le
     exact hne (h.eq_of_length (by omega))
 
+/-! ### the definition re-created from the InitHash of the type it defined -/
+
+/-- FULL statement: every accepted definition, re-created from the InitHash of the type it defined (`typeDef`, what
+    `objectType.InitHash()` / `String()` / the serializer print), is accepted again and yields the same type — the own
+    attributes in the order of the printed definition, `constants` last (`reorder`).  FALSE of model and code: the known
+    finding C17-type-inithash-constant-undef (`C17_type_inithash_constant_undef`). -/
+def C17_type_inithash : Prop :=
+  ∀ (env : List OType) (d : Def) (l : Level) (p : OType), DefShape d → define env d = .ok (l :: p) →
+    define env (typeDef d.parent l) = .ok ({ l with attrs := reorder l.attrs } :: p)
+
+/-- proved part: … provided no own attribute is a constant of an `Optional[…]` type whose value is undef
+    (`attribute.initHash` leaves the `value => undef` of every attribute of an Optional type out; a constant has no
+    implicit value).  Missing: nothing else — the hypothesis `hu` is exactly the finding. -/
+theorem C17_type_inithash_partial {env : List OType} {d : Def} {l : Level} {p : OType} (hd : DefShape d)
+    (h : define env d = .ok (l :: p)) (hu : ∀ a ∈ l.attrs, a.undefConstant = false) :
+    define env (typeDef d.parent l) = .ok ({ l with attrs := reorder l.attrs } :: p) :=
+  define_typeDef hd.names hd.constNames h hu
+
+/-- the re-created type lays out, finds and compares its attributes exactly like the original: same positional attributes,
+    required count and equality positions (`attrInfo`), same member lookup — hence the same constructors, `Get`,
+    init-hashes and equality on the same value lists -/
+theorem C17_type_inithash_same {env : List OType} {d : Def} {l : Level} {p : OType} (hd : DefShape d)
+    (h : define env d = .ok (l :: p)) :
+    attrInfo ({ l with attrs := reorder l.attrs } :: p) = attrInfo (l :: p) ∧
+    (∀ n, findAttr ({ l with attrs := reorder l.attrs } :: p) n = findAttr (l :: p) n) ∧
+    (∀ vs n, get { typ := { l with attrs := reorder l.attrs } :: p, values := vs } n =
+      get { typ := l :: p, values := vs } n) ∧
+    (∀ vs, initHash { typ := { l with attrs := reorder l.attrs } :: p, values := vs } =
+      initHash { typ := l :: p, values := vs }) := by
+  obtain ⟨hboth, attrs, hattrs, -, -, ht⟩ := define_parts h
+  have hla : l.attrs = attrs := by rw [(List.cons.inj ht).1]
+  have hnd : (l.attrs.map (·.name)).Nodup := by
+    rw [hla, (defineAttrs_ok hattrs).1]; exact decls_nodup hd.names hd.constNames hboth
+  have hai := attrInfo_reorder (l' := { l with attrs := reorder l.attrs }) (p := p) hnd rfl rfl rfl
+  have hfa := fun n => findAttr_reorder (l' := { l with attrs := reorder l.attrs }) (p := p) hnd rfl n
+  refine ⟨hai, hfa, ?_, ?_⟩
+  · intro vs n
+    unfold get
+    simp only [hai, hfa]
+  · intro vs
+    unfold initHash
+    simp only [hai]
+
+/-- the known finding, replayed in the model: `{a => {type => Optional[Integer], kind => constant, value => undef}}` is
+    accepted, the definition its type prints as is rejected with CONSTANT_REQUIRES_VALUE -/
+def undefConstDef : Def :=
+  { parent := none, attrs := [{ name := "a", ty := .opt .int, kind := .constant, dflt := some .undef }],
+    equality := .absent, includeType := none, serialization := none }
+def undefConstLevel : Level :=
+  { id := 0, attrs := [{ name := "a", ty := .opt .int, kind := .constant, value := some .undef, final := true }],
+    equality := none, includeType := true, serialization := none }
+
+theorem C17_type_inithash_constant_undef : ¬ C17_type_inithash := by
+  intro h
+  have h1 : define [] undefConstDef = .ok [undefConstLevel] := by decide
+  have h2 := h [] undefConstDef undefConstLevel [] ⟨by decide, by decide⟩ h1
+  have h3 : define [] (typeDef undefConstDef.parent undefConstLevel) = .error .constantRequiresValue := by decide
+  rw [h3] at h2
+  cases h2
+
 /-! ### non-vacuity: a three-level chain with a constant, an Optional attribute, a given_or_derived attribute, a default,
     a declared equality and a serialization order meets every hypothesis used above -/
 
@@ -670,6 +739,13 @@ theorem sampleWF3 : WF sampleT3 :=
 example : (posAttrs sampleT3).map (·.name) = ["z", "a"] ∧ requiredCount sampleT3 = 1 := ⟨rfl, rfl⟩
 example : get { typ := sampleT3, values := [.str "x"] } "a" = .ok (some (.int 3)) :=
   C17_get (i := 1) sampleWF3 (rfl : newPos sampleT3 [.str "x"] = .ok _) rfl
+
+/-- hypotheses of `C17_type_inithash_partial` / `C17_type_inithash_same`: the root of the sample (an attribute and a
+    `constants` entry) and its grand-child (a default, a serialization order, an equality) are re-created from what they
+    print as; the constant moves behind the attribute -/
+example : ∃ l p, define [] (sampleDefs.headD default) = .ok (l :: p) ∧ (∀ a ∈ l.attrs, a.undefConstant = false) ∧
+    (typeDef none l).constants = [("k", .int 7)] := ⟨_, _, rfl, by decide, rfl⟩
+example : define [] (typeDef none (sampleT0.headD default)) = .ok sampleT0 := by decide
 
 /-- hypotheses of `C17_get` / `C17_pos_named` hold; the conclusions, instantiated: an omitted trailing attribute reads back
     its default, a given_or_derived one `undef`, the constant its value -/
